@@ -400,8 +400,8 @@ func parseRoutes(csv *csv.File, agencies []Agency) []Route {
 		route := Route{
 			Id:                routeID,
 			Agency:            agency,
-			Color:             colorColumn.ReadOr("FFFFFF"),
-			TextColor:         textColorColumn.ReadOr("000000"),
+			Color:             valueOr(colorColumn.Read(), "FFFFFF"),
+			TextColor:         valueOr(textColorColumn.Read(), "000000"),
 			ShortName:         shortNameColumn.Read(),
 			LongName:          longNameColumn.Read(),
 			Description:       descriptionColumn.Read(),
@@ -418,6 +418,14 @@ func parseRoutes(csv *csv.File, agencies []Agency) []Route {
 		routes = append(routes, route)
 	}
 	return routes
+}
+
+// valueOr returns the default when the cell is blank or its column is absent.
+func valueOr(cell string, def string) string {
+	if cell == "" {
+		return def
+	}
+	return cell
 }
 
 func parseRouteSortOrder(raw string) *int32 {
@@ -799,7 +807,7 @@ func parseScheduledStopTimes(csv *csv.File, stops []Stop, trips []ScheduledTrip)
 			ContinuousPickup:      parsePickupDropOffPolicy(continuousPickupColumn.ReadOr("")),
 			ContinuousDropOff:     parsePickupDropOffPolicy(continuousDropOffColumn.ReadOr("")),
 			ShapeDistanceTraveled: parseFloat64(shapeDistanceTraveledColumn.Read()),
-			ExactTimes:            timepointColumn.ReadOr("1") == "1",
+			ExactTimes:            valueOr(timepointColumn.Read(), "1") == "1",
 		}
 		tripID := tripIDColumn.Read()
 		if currentTrip == nil || currentTripID != tripID {
